@@ -9,3 +9,4 @@ def run(ck):
     filt.r2_write_accounting(ck, P)
     filt.r4_kernel_table(ck, P)
     filt.r_axis_consistency(ck, P, 'C18-R5')
+    filt.r6_acceptance_domain(ck, P)
